@@ -84,13 +84,29 @@ def strategy_(draw, tier):
             g = gen_graph.rename_nodes(g, mp)
             for c in b.chroms:
                 c["ref"] = [mp.get(n, n) for n in c["ref"]]
+                c["nodes"] = [mp.get(n, n) for n in c["nodes"]]
     # a graph of a sub-region keeps the original offsets: reference coordinates need not start at 0
     for c in b.chroms:
         off = draw(st.sampled_from([0, 0, 95, 9990, 99999995]))
         for n in c["ref"]:
             g["nodes"][n]["so"] += off
+    keys = list(names)
+    if draw(st.integers(0, 4)) == 0:
+        # a component in which one haplotype contig has more segments than the reference: order_gfa names it after that
+        # contig (majority vote); the chain is still walked in reference order
+        for ci, c in enumerate(b.chroms):
+            haps = [n for n in c["nodes"] if g["nodes"][n]["sr"] != 0]
+            if len(haps) > len(c["ref"]):
+                big = "HG01#1#big%d" % ci
+                pos = 0
+                seq_ = haps if draw(st.booleans()) else list(reversed(haps))  # the contig may lie on the opposite strand
+                for n in seq_:
+                    g["nodes"][n]["sn"], g["nodes"][n]["sr"], g["nodes"][n]["so"] = big, 1, pos
+                    pos += g["nodes"][n]["ln"] + draw(st.sampled_from([0, 0, 5]))
+                keys[ci] = big
+                break
     k = draw(st.integers(1, nchrom))
-    order = list(draw(st.permutations(names)))[:k]
+    order = list(draw(st.permutations(keys)))[:k]
     stale = {}
     for n in g["nodes"]:
         stale[n] = ["BO:i:%d" % draw(st.integers(0, 50)), "NO:i:%d" % draw(st.integers(0, 5))]
@@ -179,6 +195,8 @@ def judge(nodes, links, named, order, tags):
         if len(dec["art"]) == 1:
             nontrivial = True
         # walk of the oracle started at the lowest-key end; was that the high-SO end?
+    if any(all(nodes[n]["sr"] != 0 for n in named[c] if nodes[n]["sn"] == c) for c in order):
+        classes.add("component_named_after_haplotype_contig")
     if len(order) >= 2:
         classes.add("chromosomes>=2")
         nontrivial = True
